@@ -12,9 +12,13 @@ import sys
 
 
 def main():
-    from . import core, rulegen, rules, ruleprops
+    from . import core, mipcheck, rulegen, rules, ruleprops
 
-    for line in sys.stdin:
+    mipcheck.install()
+    while True:
+        line = sys.stdin.readline()
+        if not line:
+            break
         line = line.strip()
         if not line:
             continue
@@ -26,12 +30,15 @@ def main():
             rulegen.fix_loads(cfg, built)
             ans, raw = rules.impl_answer(built, cfg)
             out = rules.canon(ans)
-            if cfg.get("want_welfare"):
+            faults = mipcheck.take_faults()
+            if faults:
+                out = "solver-fault " + faults[0]
+            elif cfg.get("want_welfare"):
                 out += " W=" + welfare_of(case, cfg, built, raw)
         except Exception as e:  # noqa: BLE001
             out = "harness-error " + repr(e)[:200]
         sys.stdout.write(out + "\n")
-    sys.stdout.flush()
+        sys.stdout.flush()
 
 
 def welfare_of(case, cfg, built, raw):
